@@ -1,7 +1,16 @@
 import PycsepVerif.Proto
 import PycsepVerif.Model.Ecdf
+import PycsepVerif.Model.EcdfNumpy
 namespace Drive.C09
 open Proto
+
+/-- comparison domain: `x` exact, `h` binary16, `s` binary32, `d` binary64 -/
+def parseDom? : String → Option Ecdf.Dom
+  | "x" => some .exact | "h" => some .f16 | "s" => some .f32 | "d" => some .f64 | _ => none
+
+def showNp : Ecdf.NpOut → String
+  | .prob k n => s!"{k}:{n}"
+  | .indexError => "IndexError"
 
 def handle : List String → Option String
   | ["ge_ecdf", xs, v] => some (match parseList? parseRat? xs, parseRat? v with
@@ -10,5 +19,25 @@ def handle : List String → Option String
       | some xs, some v => showOpt showPair (Ecdf.leEcdf xs v) | _, _ => "bad-op")
   | ["binned_ecdf", xs, vs] => some (match parseList? parseRat? xs, parseList? parseRat? vs with
       | some xs, some vs => showOpt (showList showPair) (Ecdf.binnedEcdf xs vs) | _, _ => "bad-op")
+  -- promotion-aware layer: `ecdf_np SC SE xs v` → `<ge> <le>` (each `k:n`, `IndexError` or `none`)
+  | ["ecdf_np", sc, se, xs, v] => some (match parseDom? sc, parseDom? se, parseList? parseRat? xs, parseRat? v with
+      | some sc, some se, some xs, some v =>
+        showOpt showNp (Ecdf.geEcdfNp sc.cast se.cast xs v) ++ " " ++ showOpt showNp (Ecdf.leEcdfNp sc.cast se.cast xs v)
+      | _, _, _, _ => "bad-op")
+  -- the floats returned for the two probabilities (exact model counts, one binary64 division each)
+  | ["ecdf_float", xs, v] => some (match parseList? parseRat? xs, parseRat? v with
+      | some xs, some v =>
+        (match Ecdf.geEcdf xs v, Ecdf.leEcdf xs v with
+         | some (k1, n1), some (k2, n2) => showRat (Ecdf.probF k1 n1) ++ " " ++ showRat (Ecdf.probF k2 n2)
+         | _, _ => "none")
+      | _, _ => "bad-op")
+  | ["sup_dist_na", d1, d2] => some (match parseList? parseRat? d1, parseList? parseRat? d2 with
+      | some d1, some d2 => showRat (Ecdf.supDistNa d1 d2) ++ " " ++ showRat (Ecdf.supDistNaF d1 d2)
+      | _, _ => "bad-op")
+  | ["sup_dist", c1, c2] => some (match parseList? parseRat? c1, parseList? parseRat? c2 with
+      | some c1, some c2 => showRat (Ecdf.supDistF c1 c2) | _, _ => "bad-op")
+  | ["min_max", xs] => some (match parseList? parseRat? xs with
+      | some xs => showOpt showRat (Ecdf.minOrNone xs) ++ " " ++ showOpt showRat (Ecdf.maxOrNone xs)
+      | none => "bad-op")
   | _ => none
 end Drive.C09
